@@ -150,7 +150,8 @@ def expr_of(case) -> str:
     if k == 'V':
         return f"$a {case['op']} $b"
     if k == 'B':
-        return {'boolean': 'boolean($a)', 'not': 'not($a)', 'if': 'if ($a) then 1 else 0'}[case['f']]
+        return {'boolean': 'boolean($a)', 'not': 'not($a)', 'if': 'if ($a) then 1 else 0',
+                'blist': 'true()'}[case['f']]
     if k == 'L':
         return f"$a {case['f']} $b"
     raise ValueError(case)
@@ -177,7 +178,10 @@ def build_values(case):
             k[0] += 1
             return nodes[k[0] - 1]
         if t == 'i':
-            return it[1]
+            v = it[1]       # every third small value as a derived integer type (xs:int / xs:nonNegativeInteger)
+            if v % 3 == 0 and -2 ** 31 <= v < 2 ** 31:
+                return dt.Int(v) if v % 2 else (dt.NonNegativeInteger(v) if v >= 0 else dt.Integer(v))
+            return v
         if t == 'd':
             return Decimal(it[1])
         if t == 'f':
@@ -243,7 +247,15 @@ def run_impl(case) -> str:
     from elementpath import XPathContext, ElementPathError
     try:
         root, variables = build_values(case)
+    except Exception as e:  # noqa  (a constructor of the library refusing a generated value)
+        return 'ERR:BUILD:' + type(e).__name__
+    try:
         tok = get_token(case['m'], expr_of(case))
+        if case.get('f') == 'blist':     # the list branch of boolean_value, called directly on the token
+            return canon_result(tok.boolean_value(list(variables['a'])))
+        # a singleton operand is bound as a scalar or as a one-item list (deterministically by its content)
+        variables = {k: (v[0] if len(v) == 1 and (len(repr(v[0])) + len(case['m'])) % 2 == 0 else v)
+                     for k, v in variables.items()}
         ctx = XPathContext(root=root, variables=variables)
         return canon_result(tok.evaluate(ctx))
     except ElementPathError as e:
@@ -309,6 +321,13 @@ def rand_item(rng, t=None):
         return ('i', rng.choice([1, -1]) * rng.randrange(0, 2 ** rng.choice([4, 30, 54, 70])))
     if t == 'd' and rng.random() < 0.3:
         return ('d', str(Decimal(rng.randrange(-10 ** 6, 10 ** 6)) / (10 ** rng.randrange(0, 8))))
+    if t == 'Y' and rng.random() < 0.6:
+        return ('Y', rng.randrange(-30, 31))
+    if t == 'S' and rng.random() < 0.6:
+        return ('S', rng.choice([1, -1]) * (86400 * rng.choice([0, 1, 28, 29, 30, 31, 59, 365, 366]) + rng.choice([0, 0, 1, -1, 3600])))
+    if t == 'P' and rng.random() < 0.6:
+        sg = rng.choice([1, -1])      # months and seconds of a duration carry the same sign
+        return ('P', sg * rng.randrange(0, 16), sg * (86400 * rng.choice([0, 0, 1, 28, 29, 30, 31, 59, 61, 365, 366]) + rng.choice([0, 0, 1])))
     if t in 'DTt':
         return boundary_item(rng, t) if rng.random() < 0.5 else (t, rng.choice(POOLS[t]), rng.choice(TZS))
     return pool_item(t, rng.choice(POOLS[t]))
@@ -330,6 +349,32 @@ def boundary_item(rng, t, year=None):
     hms = rng.choice([(0, 0, 0), (1, 0, 0), (4, 0, 0), (10, 0, 0), (13, 59, 59), (14, 0, 1), (20, 0, 0), (23, 0, 0),
                       (23, 59, 59)])
     return ('T', (y, *md, *hms), tz)
+
+
+def neighbour(rng, it):
+    """an item of the same type equal or adjacent to `it` (collisions and off-by-one values)"""
+    t = it[0]
+    d = rng.choice([0, 0, 1, -1])
+    if t == 'i':
+        return ('i', it[1] + d)
+    if t == 'Y':
+        return ('Y', it[1] + d)
+    if t == 'S':
+        return ('S', it[1] + d * rng.choice([1, 86400]))
+    if t == 'P':
+        m, sec = it[1], it[2]
+        if rng.random() < 0.5:
+            m += d
+        else:
+            sec += d * rng.choice([1, 86400])
+        if (m < 0 < sec) or (sec < 0 < m):
+            return it
+        return ('P', m, sec)
+    if t == 'd':
+        return ('d', str(Decimal(it[1]) + d * Decimal(rng.choice(['1', '0.1', '0.00000001']))))
+    if t in 'su' and it[1]:
+        return (t, it[1][:-1] + chr(max(32, min(126, ord(it[1][-1]) + d))) if ord(it[1][-1]) < 127 else it[1])
+    return it
 
 
 def rand_seq(rng, maxlen=3, node_p=0.15, types=None):
@@ -421,8 +466,9 @@ def gen_cases(run: Run):
                           ['u', 'i', 'd', 'f', 'g'], ['u', 'b'], ['u', 'x', 'y', 'q', 'a']])
         m = rng.choice(MODES)
         k = rng.choice(['G', 'V']) if m != 'v1' else 'G'
-        cases.append({'k': k, 'm': m, 'op': rng.choice(OPS), 'l': [rand_item(rng, rng.choice(grp))],
-                      'r': [rand_item(rng, rng.choice(grp))]})
+        a = rand_item(rng, rng.choice(grp))
+        b = neighbour(rng, a) if rng.random() < 0.4 else rand_item(rng, rng.choice(grp))
+        cases.append({'k': k, 'm': m, 'op': rng.choice(OPS), 'l': [a], 'r': [b]})
     # (2b) pairs of doubles / floats at relative distances around the isclose tolerance (1e-7)
     for _ in range(run.scale(2500, 30000)):
         base = rng.choice([1.0, 3.0, 1e10, 1e-5, 123.456, -7.25, 2.0 ** 60, 1e-300, 1e300, 0.1, -1e-7])
@@ -476,7 +522,7 @@ def gen_cases(run: Run):
     for tx in NODE_TEXTS[:6]:
         shapes.append([('n', tx)])
     for m in MODES:
-        for f in ('boolean', 'not', 'if'):
+        for f in ('boolean', 'not', 'if', 'blist'):
             if f == 'if' and m == 'v1':
                 continue
             for s in shapes:
